@@ -173,7 +173,7 @@ pub fn check(sc: &CScenario) -> CaseResult {
                 continue;
             }
             let transmitted_before = v.wire.get(&c.call).map_or(false, |w| w.1 < dseq);
-            let polled_before = run.recs.iter().any(|r| r.seq < dseq && matches!(&r.ev, Ev::PollStart{task} if *task == c.task));
+            let polled_before = run.recs.iter().any(|r| r.seq < dseq && matches!(&r.ev, Ev::PollStart{task, ..} if *task == c.task));
             if polled_before && !transmitted_before {
                 classes.insert("abandoned-while-queued");
                 nontrivial = true;
